@@ -182,6 +182,14 @@ def run(cfg, w):
             else:
                 w.ob(f"outside{list(idx)}", w.same(t.values[idx], T[idx]))
         w.ob_arr_eq("source_unchanged", src.values, S)
+        # later changes to the source must not reach the target, and vice versa (no shared buffer)
+        snap_t = t.values.copy()
+        if src.values.size:
+            src.values[...] = w.real("later_src")
+            w.ob_arr_eq("target_independent_of_later_source_writes", t.values, snap_t)
+            snap_s = src.values.copy()
+            t.values[...] = w.real("later_tgt")
+            w.ob_arr_eq("source_independent_of_later_target_writes", src.values, snap_s)
         return
     if h == "whole_nd":
         rshape = tuple(cfg["shape"])
